@@ -413,12 +413,11 @@ impl PsFunc {
                 PsOp::Roll => {
                     let j = stack.pop().ok_or(PostScriptError::StackUnderflow)? as isize;
                     let n = stack.pop().ok_or(PostScriptError::StackUnderflow)? as usize;
-                    let start = stack.len() - n;
+                    // n and j are operands of the program: n elements must be there, j is taken modulo n
+                    let start = stack.len().checked_sub(n).ok_or(PostScriptError::StackUnderflow)?;
                     let slice = &mut stack[start..];
-                    if j > 0 {
-                        slice.rotate_right(j as usize);
-                    } else {
-                        slice.rotate_left(-j as usize);
+                    if n > 0 {
+                        slice.rotate_right(j.rem_euclid(n as isize) as usize);
                     }
                 }
                 PsOp::Index => {
@@ -451,6 +450,9 @@ impl PsFunc {
     pub fn parse(s: &str) -> Result<Self, PdfError> {
         let start = s.find('{').ok_or(PdfError::PostScriptParse)?;
         let end = s.rfind('}').ok_or(PdfError::PostScriptParse)?;
+        if end < start {
+            return Err(PdfError::PostScriptParse);
+        }
 
         let ops: Result<Vec<_>, _> = s[start + 1 .. end].split_ascii_whitespace().map(PsOp::parse).collect();
         Ok(PsFunc { ops: ops? })
